@@ -147,6 +147,59 @@ impl<'a> Substitutions<'a> {
         visitor.1
     }
 
+    /// Return the given trait bound with every parameter that is a key of [`Self`] replaced with
+    /// the value it is mapped to. This is the forward mapping, the opposite of [`Self::substitute`]
+    pub fn apply(&self, trait_bound: &TraitBoundIdent) -> TraitBoundIdent {
+        struct Visitor<'a, 'b>(&'b Substitutions<'a>);
+
+        impl Visitor<'_, '_> {
+            fn value(&self, path: &syn::Path) -> Option<SubstitutionValue<'_>> {
+                matches_param_ident(path).and_then(|ident| self.0.0.get(ident).copied())
+            }
+        }
+
+        impl syn::visit_mut::VisitMut for Visitor<'_, '_> {
+            fn visit_generic_argument_mut(&mut self, node: &mut syn::GenericArgument) {
+                if let syn::GenericArgument::Type(syn::Type::Path(ty)) = node {
+                    if let Some(SubstitutionValue::Expr(value)) = self.value(&ty.path) {
+                        *node = syn::GenericArgument::Const(value.clone());
+                        return;
+                    }
+                }
+
+                syn::visit_mut::visit_generic_argument_mut(self, node);
+            }
+
+            fn visit_type_mut(&mut self, node: &mut syn::Type) {
+                if let syn::Type::Path(ty) = node {
+                    if let Some(SubstitutionValue::Type(value)) = self.value(&ty.path) {
+                        *node = value.clone();
+                        return;
+                    }
+                }
+
+                syn::visit_mut::visit_type_mut(self, node);
+            }
+
+            fn visit_expr_mut(&mut self, node: &mut syn::Expr) {
+                if let syn::Expr::Path(expr) = node {
+                    if let Some(SubstitutionValue::Expr(value)) = self.value(&expr.path) {
+                        *node = value.clone();
+                        return;
+                    }
+                }
+
+                syn::visit_mut::visit_expr_mut(self, node);
+            }
+        }
+
+        let mut trait_bound = trait_bound.clone();
+        syn::visit_mut::VisitMut::visit_type_mut(&mut Visitor(self), &mut trait_bound.0.0);
+        syn::visit_mut::VisitMut::visit_path_mut(&mut Visitor(self), &mut trait_bound.1.0);
+
+        trait_bound
+    }
+
     /// Return new trait bound where all types from the given trait bound, that are values in [`Self`],
     /// were replaced with corresponding mappings. Since each type can be replaced with multiple types,
     /// this functions returns all possible combinations.
